@@ -26,6 +26,7 @@ REQUIRED_THEOREMS = [
     "TapkeeVerif.QuadTree.order_independent_observables",
     "TapkeeVerif.QuadTree.fuel_suffices",
     "TapkeeVerif.QuadTree.fuel_irrelevant",
+    "TapkeeVerif.QuadTree.fuel_exists",
     "TapkeeVerif.QuadTree.summary_criterion_sqrt",
 ]
 
